@@ -96,7 +96,7 @@ func init() {
 	})
 	addProp(&propDef{
 		ID: "C11", Check: "meta", Level: "exploration",
-		Rule:        "every `--`-free grammar-derived spec up to the size bound x every argv up to the length bound x every adjacent pair of occurrences of different options (two whole-token occurrences of 1 or 2 tokens, or two neighbouring letters of a flag fold): the swapped command line must have the identical outcome; evaluations = compared pairs; non-trivial = at least one of the two is accepted",
+		Rule:        "every `--`-free grammar-derived spec up to the size bound x every argv up to the length bound x every adjacent pair of occurrences of different options (two whole-token occurrences of 1 or 2 tokens, two neighbouring letters of a flag fold, or a whole folded token with its value moved past an adjacent occurrence of an option it does not contain): the swapped command line must have the identical outcome; evaluations = compared pairs; non-trivial = at least one of the two is accepted",
 		Assumptions: metaAssume,
 	})
 }
@@ -128,7 +128,7 @@ func init() {
 func init() {
 	addProp(&propDef{
 		ID: "C07", Check: "policy", Level: "fault_enumeration",
-		Rule: "command trees of the bound with Before/After/Action on every level x spec assignments over {`[-f]`, `[-f] X`, `[-i] [-o]` (int and string options), `N` (int argument)} x every target x per-level argvs covering every rejection kind (spec mismatch at each level, undeclared option, missing value, unconvertible value for an int option / argument) and accepted controls x every assignment of {ContinueOnError, ExitOnError, PanicOnError} to the root and of {inherited, ContinueOnError, ExitOnError, PanicOnError} to every deeper level of the path, set inside each command's initializer; judged against the reference router: rejected => no hook and no Action ran, `Error:` and a `Usage: <full path of the rejecting command>` line on the error stream, then exactly the policy of that command; accepted => hooks in nesting order, nil, no exit, no panic; non-trivial = rejected invocations",
+		Rule: "command trees of the bound with Before/After/Action on every level x spec assignments over {`[-f]`, `[-f] X`, `[-i...] [-o]` (repeatable int option, string option), `N` (int argument)} x every target x per-level argvs covering every rejection kind (spec mismatch at each level, undeclared option, missing value, unconvertible value for an int option / argument) and accepted controls x every assignment of {ContinueOnError, ExitOnError, PanicOnError} to the root and of {inherited, ContinueOnError, ExitOnError, PanicOnError} to every deeper level of the path, set inside each command's initializer; judged against the reference router: rejected => no hook and no Action ran, `Error:` and a `Usage: <full path of the rejecting command>` line on the error stream, then exactly the policy of that command; accepted => hooks in nesting order, nil, no exit, no panic; non-trivial = rejected invocations",
 		Assumptions: []string{"per-level validation uses the reference semantics of DESIGN.md section 4 plus strconv for int containers"},
 	})
 }
@@ -192,7 +192,7 @@ func init() {
 func init() {
 	addProp(&propDef{
 		ID: "C17", Check: "helptext", Level: "exploration",
-		Rule: "every single-item declaration over the full variant product (option name lists, environment lists, the seven types with zero / non-zero default, HideValue, empty / one-line / three-line descriptions; arguments alike; sub-commands with 1-3 aliases, Hidden, LongDesc) and every declaration set of <= 2 arguments + <= 2 options + <= 2 sub-commands over 6 variants per item, each at depth 0 and 1, short help (printed on a rejected invocation) and long help (--help); an environment variable named by an item is SET while the application is declared; the captured text is compared, after whitespace normalisation, with the ordered rows of a reference renderer (usage line with path, spec or the synthesised spec, COMMAND marker; description or long description; Arguments; Options with first short and first long name; non-hidden Commands with all aliases; env lists; declared defaults unless hidden), and hidden aliases must not occur anywhere; non-trivial = declarations with at least two items",
+		Rule: "every single-item declaration over the full variant product (option name lists, environment lists, the seven built-in types and four custom flag.Value types (with and without IsBoolFlag / IsDefault) with zero / non-zero default, HideValue, empty / one-line / three-line descriptions; arguments alike; sub-commands with 1-3 aliases, Hidden, LongDesc) and every declaration set of <= 2 arguments + <= 2 options + <= 2 sub-commands over 6 variants per item, each at depth 0 and 1, short help (printed on a rejected invocation) and long help (--help); an environment variable named by an item is SET while the application is declared; the captured text is compared, after whitespace normalisation, with the ordered rows of a reference renderer (usage line with path, spec or the synthesised spec, COMMAND marker; description or long description; Arguments; Options with first short and first long name; non-hidden Commands with all aliases; env lists; declared defaults unless hidden), and hidden aliases must not occur anywhere; non-trivial = declarations with at least two items",
 		Assumptions: []string{"how each built-in type prints its default (\"dflt\" quoted, [7, 8], 0 for a zero int/float, nothing for false / empty) is taken from the repository's golden help files"},
 	})
 }
@@ -213,7 +213,7 @@ func init() {
 			{Name: "probe-conv", Build: "plain", Check: "conv", Props: "C13", OrderProbe: true},
 			{Name: "probe-decl", Build: "plain", Check: "decl", Props: "C18", OrderProbe: true},
 		},
-		Rule: "(a) histories: every ordered sequence of <= 3 of 14 application templates (chosen to collide: same spec text with different declarations, same option names, the same environment variable read with different values, a rejection, a help request under ExitOnError, hooks with Exit, nested repetitions, implicit spec, two rejections caused by unconvertible values with other containers already collected) is built-and-run in one fresh process and every outcome compared with the template's outcome alone in a fresh process; (b) interleavings: the library sources are instrumented (overlay) with a scheduling point at every function entry, every loop head and before/after every statement mentioning a package-level variable; 2 (thorough: 3) templates run as cooperative threads; all schedules up to the preemption bound are enumerated depth-first (dense pass: every point; focused pass: tagged points only, higher bound), every execution on fresh objects; oracle per execution: each thread ends exactly as it does alone under the same instrumentation (result, bound values, exit codes and the text that thread itself wrote to the output stream), and no package-level variable is written by one thread and touched by another (conflict monitor); states = scheduling points visited, transitions = executions (schedules) run; traces validated = schedules executed on the real code (all of them); (c) the same bodies free-running in 16 goroutines under -race; (d) order probes: the enumerations of C06/C15, C19, C17, C13 and C18 (thorough: also C14) (millions of different applications built and run one after another in 16 long-lived processes) are run once more, and a case that fails there but passes alone in a fresh process is reported as an order dependence; non-trivial = executions with at least one preemption, histories of length >= 2",
+		Rule: "(a) histories: every template rebuilt and rerun 120 times (identical outcomes), and every ordered sequence of <= 3 of 17 application templates (chosen to collide: same spec text with different declarations, same option names, the same environment variable read with different values, a rejection, a help request under ExitOnError, hooks with Exit, nested repetitions, implicit spec, two rejections caused by unconvertible values with other containers already collected) is built-and-run in one fresh process and every outcome compared with the template's outcome alone in a fresh process; (b) interleavings: the library sources are instrumented (overlay) with a scheduling point at every function entry, every loop head and before/after every statement mentioning a package-level variable; 2 (thorough: 3) templates run as cooperative threads; all schedules up to the preemption bound are enumerated depth-first (dense pass: every point; focused pass: tagged points only, higher bound), every execution on fresh objects; oracle per execution: each thread ends exactly as it does alone under the same instrumentation (result, bound values, exit codes and the text that thread itself wrote to the output stream), and no package-level variable is written by one thread and touched by another (conflict monitor); states = scheduling points visited, transitions = executions (schedules) run; traces validated = schedules executed on the real code (all of them); (c) the same bodies free-running in 16 goroutines under -race; (d) order probes: the enumerations of C06/C15, C19, C17, C13 and C18 (thorough: also C14) (millions of different applications built and run one after another in 16 long-lived processes) are run once more, and a case that fails there but passes alone in a fresh process is reported as an order dependence; non-trivial = executions with at least one preemption, histories of length >= 2",
 		Assumptions: []string{"interleavings are explored at the granularity of the inserted scheduling points; Go memory-model effects below that granularity are left to the free-running -race pass, which is not exhaustive", "a report of the race detector is taken as proof (no confirmation replay)", "concurrent applications share the package-level output stream by design: outputs are compared in histories only"},
 	})
 }
